@@ -25,7 +25,7 @@ BudSim   == [way |-> 4, way2 |-> 2, rand |-> 3, hs |-> 4, badhs |-> 2, msg |-> 8
 
 Reset == [k |-> "Reset", retries |-> RETRIES, cap |-> CAP, sess_ttl |-> TTL]
 Init == /\ h = HInit(RETRIES, CAP, TTL) /\ env = EInit /\ bud = BUD
-        /\ hist = <<Reset>> /\ last = [in |-> Reset, rin |-> [k |-> "Nop"], hadSess |-> FALSE, hadPend |-> FALSE, pendRids |-> {}, wayHs |-> FALSE]
+        /\ hist = <<Reset>> /\ last = [in |-> Reset, rin |-> [k |-> "Nop"], hadSess |-> FALSE, hadPend |-> FALSE, pendRids |-> {}, expPend |-> FALSE, wayHs |-> FALSE]
         /\ subm = {} /\ outc = [r \in RIDS |-> 0] /\ proved = {} /\ xreq = {} /\ rot = {}
 
 Parties == PEERS \cup (IF ATTACKER THEN {"A"} ELSE {})
@@ -39,8 +39,11 @@ AppWrus == UNION {{[k |-> "AppWhoAreYou", ref |-> env.wru[i].ref, rec |-> r] : r
 Randoms == {[k |-> "PeerRandom", party |-> p, from |-> HomeSock(p), claim |-> p] : p \in PEERS}
            \cup (IF ATTACKER THEN {[k |-> "PeerRandom", party |-> "A", from |-> "aA", claim |-> c] : c \in PEERS} ELSE {})
 \* WHOAREYOU from a party for a datagram the node sent to one of the sockets that party can see
-Ways == {[k |-> "PeerWhoAreYou", party |-> p, from |-> env.seen[i].to, echo |-> env.seen[i].n, seq |-> q, claim |-> env.seen[i].id] :
-              p \in Parties, i \in 1..Len(env.seen), q \in WAYSEQS}
+\* (also from the other port of the same IP address: a1 <-> a1b, ...: such a WHOAREYOU does not come from where the datagram went)
+Sib(s) == CASE s = "a1" -> "a1b" [] s = "a2" -> "a2b" [] s = "a3" -> "a3b" [] s = "aA" -> "aAb"
+            [] s = "a1b" -> "a1" [] s = "a2b" -> "a2" [] s = "a3b" -> "a3" [] s = "aAb" -> "aA" [] OTHER -> s
+Ways == UNION {{[k |-> "PeerWhoAreYou", party |-> p, from |-> f, echo |-> env.seen[i].n, seq |-> q, claim |-> env.seen[i].id] :
+              p \in Parties, q \in WAYSEQS, f \in {env.seen[i].to} \cup (IF DEPTH > 0 THEN {Sib(env.seen[i].to)} ELSE {})} : i \in 1..Len(env.seen)}   \* sibling sources in simulation only (the model ignores them)
 WaysOk == {w \in Ways : w.from \in Socks(w.party) \/ (w.party = "A" /\ DEPTH > 0)}    \* source-address spoofing of WHOAREYOU only in simulation
 HsMsgs == {[t |-> "req", xid |-> "x1", body |-> "ping"]} \cup {[t |-> "resp", rid |-> r, body |-> "pong"] : r \in subm}
 Handshakes == UNION {UNION {{[k |-> "PeerHandshake", party |-> p, from |-> env.froml[i].sock, claim |-> env.froml[i].id, chal |-> env.froml[i].idn,
@@ -98,6 +101,7 @@ Do(kind, in) ==
         /\ env' = EnvOut(e1, in, h2)
         /\ last' = [in |-> in, rin |-> rin, hadSess |-> rin.k = "hs" /\ HasSess(h, Addr(rin.src, rin.from)), hadPend |-> rin.k = "hs" /\ \E i \in 1..Len(h.pend) : h.pend[i].addr = Addr(rin.src, rin.from) /\ ~h.pend[i].int,
                         pendRids |-> {h.pend[i].rid : i \in 1..Len(h.pend)},
+                        expPend |-> rin.k = "Advance" /\ \E i \in 1..Len(h.pend) : ~h.pend[i].int /\ HasSess(h, h.pend[i].addr) /\ HasChal(h, h.pend[i].addr),
                         wayHs |-> rin.k = "way" /\ \E i \in 1..Len(h.active) : h.active[i].n = rin.echo /\ h.active[i].hs /\ h.active[i].kind = "msg" /\ h.active[i].addr.sock = rin.from]
         /\ hist' = Append(hist, in)
         /\ subm' = IF in.k = "AppRequest" THEN subm \cup {in.rid} ELSE subm
@@ -188,6 +192,10 @@ GoalSendAfterRotateBack == ~(\E i \in 1..Len(h.tx) : h.tx[i].kind = "msg" /\ ~h.
                                             before == Cardinality({j \in 1..(f - 1) : env.seen[j].kind = "msg" /\ env.seen[j].key = h.tx[i].key})
                                             since  == Cardinality({j \in (f + 1)..(Len(env.seen) - Len(h.tx)) : env.seen[j].kind = "msg" /\ env.seen[j].to = a.sock})
                                         IN since + 1 <= before)
+\* a request queued behind an unanswered WHOAREYOU of the node although a session exists (the application answered the query late):
+\* the challenge expires and the request is released
+GoalPendingAfterExpiredChallenge == ~(last.expPend /\ h.pend = <<>> /\ h.chal = <<>> /\ (\E i \in 1..Len(h.tx) : h.tx[i].kind = "msg" /\ h.tx[i].body.t = "req")
+                                      /\ (\A i \in 1..Len(h.ev) : h.ev[i].e # "RequestFailed") /\ Len(h.sessq) >= 1)
 GoalBadSigKeepsChallenge == ~(last.rin.k = "hs" /\ last.rin.signer = "bad" /\ HasChal(h, Addr(last.rin.src, last.rin.from)))
 GoalReplayedHs  == ~(last.in.k = "Replay" /\ last.rin.k = "hs" /\ Len(h.sessq) >= 1)
 =============================================================================
